@@ -661,6 +661,131 @@ def rule_A_CODEC(ctx, repo):
         raise AnalysisError('instance count below confirmed minimum: %d archive classes with serializer calls on both sides (< 3)' % n)
 
 
+def rule_A_WRITEALL(ctx, repo, cache):
+    """A-WRITEALL (every assignment is written): on a path of update / __setitem__ / setdefault-of-a-missing-key that handled an item (ran an
+    iteration of its loop over the input) and on which no primitive failed, the store was written.  Skipping the write because the entry "already holds
+    that value" compares by ==, under which 1, 1.0 and True are one value and under which a missing key read as None equals a stored None: the dict
+    the archive refines would hold the new object."""
+    n = 0
+    for ci in archive_classes(repo, PERSISTENT):
+        for op in ('update', '__setitem__'):
+            r = cache.outs(ci, op)
+            if r[0] is None:
+                continue
+            fi, outs, eng = r
+            bad = None
+            for o in outs:
+                if o.kind != RETURN or not clean_path(o):
+                    continue
+                if op == 'update' and not any(e.loop for e in o.st.events):
+                    continue          # nothing to write
+                eff = [c for e, c in effects(o)]
+                if not any(c in ('write', 'rename') for c in eff):
+                    bad = o
+                    break
+            n += 1
+            ctx.ob('A-WRITEALL', '%s.%s' % (ci.label, op), bad is None)
+            if bad is not None:
+                ctx.fail('A-WRITEALL', mq(ci, op), 'an item is handled without a write',
+                         '%s.%s returns normally on a path that handled an item of its input but never wrote the store: the assignment is skipped under some condition on '
+                         'what is stored already (a missing key read as None "equals" a new value None; 1 == 1.0 == True), so afterwards the archive does not hold what a '
+                         'dict would hold - a cache that dumps such an entry loses it' % (ci.label, op), wh(ci, bad.line or fi.node.lineno), render_path(bad))
+    if n < 8:
+        raise AnalysisError('instance count below confirmed minimum: %d writers examined (< 8)' % n)
+
+
+READFAIL_OPS = ('__getitem__', 'get', '__contains__', '__len__', '__iter__', 'keys', 'items', 'values', '__asdict__', 'pop', '__setitem__', 'update', '__delitem__',
+                'setdefault', 'popitem', 'clear', 'copy')
+READFAIL_EXEMPT = {'hdf_archive[hdf]': 'h5py raises OSError / KeyError of its own for a missing file or dataset; the class cannot be exercised here (h5py is not installed), '
+                                       'so today\'s escaping read failures in __contains__ / __len__ are neither confirmed as a defect nor taken as the reference'}
+
+
+def rule_A_READFAIL(ctx, repo, cache):
+    """A-READFAIL (a store that cannot be decoded is an empty / missing entry, not a crash): when the primitive that reads and decodes the store fails
+    (truncated file, empty file, text that is not JSON, a pickle of a class that no longer imports), no mapping operation lets that failure escape as
+    anything but KeyError - the archives turn it into "no such entry" / "empty archive", as a dict that holds nothing would answer."""
+    n = 0
+    for ci in archive_classes(repo, PERSISTENT):
+        if ci.label in READFAIL_EXEMPT:
+            ctx.note('A-READFAIL not applied to %s: %s' % (ci.label, READFAIL_EXEMPT[ci.label]))
+            continue
+        for op in READFAIL_OPS:
+            r = cache.outs(ci, op)
+            if r[0] is None:
+                continue
+            fi, outs, eng = r
+            bad = None
+            for o in outs:
+                if o.kind != RAISE or o.exc == 'KeyError':
+                    continue
+                failed = [e for e in o.st.events if e.kind.endswith('!')]
+                if failed and failed[-1].kind == 'READ!' and not any(e.kind == 'CAUGHT' for e in o.st.events[o.st.events.index(failed[-1]):]):
+                    bad = (o, failed[-1])
+                    break
+            n += 1
+            ctx.ob('A-READFAIL', '%s.%s' % (ci.label, op), bad is None)
+            if bad is not None:
+                o, e = bad
+                ctx.fail('A-READFAIL', mq(ci, op), 'decode failure escapes as %s' % o.exc,
+                         '%s.%s lets a failure of the read-and-decode step (%s) escape as %s: an existing but empty or damaged store (a zero-byte file under '
+                         'protocol=\'json\', a truncated pickle) makes every mapping operation raise, where the archive used to behave as an empty dict / a missing key'
+                         % (ci.label, op, wh(ci, e.line), o.exc), wh(ci, e.line), render_path(o))
+    if n < 20:
+        raise AnalysisError('instance count below confirmed minimum: %d mapping operations examined for escaping read failures (< 20)' % n)
+
+
+GLOBAL_MUTATORS = ('update', 'setdefault', 'append', 'add', 'pop', 'clear', 'extend', 'remove', 'discard', 'popitem', 'insert', 'appendleft')
+
+
+def rule_A_GLOBAL(ctx, repo):
+    """A-GLOBAL (archives are independent objects): no function or method of the archive modules stores anything in a module-level container
+    (a registry of connections, handles, contents, names).  Two archive objects then share nothing but their store: in particular every default
+    in-memory sqlite archive has its own ':memory:' database, and what one handle did cannot change what another handle of another name sees."""
+    n = 0
+    for modname in ('_archives', 'archives', '_abc'):
+        m = repo.mod(modname)
+        glob = set()
+        for name, node in m.consts.items():
+            if isinstance(node, (ast.Dict, ast.List, ast.Set, ast.DictComp, ast.ListComp, ast.SetComp)):
+                glob.add(name)
+            elif isinstance(node, ast.Call):
+                f = node.func
+                nm = f.id if isinstance(f, ast.Name) else f.attr if isinstance(f, ast.Attribute) else ''
+                if nm in ('dict', 'list', 'set', 'OrderedDict', 'defaultdict', 'deque', 'WeakKeyDictionary', 'WeakValueDictionary', 'Counter', 'local'):
+                    glob.add(name)
+        fnodes = [fi.node for fi in m.functions.values()] + [fi.node for ci in m.classes.values() for fi in (getattr(ci, 'own_methods', None) or ci.methods).values()]
+        seen = set()
+        for f in fnodes:
+            if id(f) in seen:
+                continue
+            seen.add(id(f))
+            n += 1
+            local = set(a.arg for a in f.args.args + f.args.kwonlyargs) | set(x.id for x in ast.walk(f) if isinstance(x, ast.Name) and isinstance(x.ctx, ast.Store))
+            gl = set(nm for x in ast.walk(f) if isinstance(x, ast.Global) for nm in x.names)
+            local -= gl
+            for node in ast.walk(f):
+                hit = None
+                if isinstance(node, (ast.Assign, ast.AugAssign, ast.Delete)):
+                    ts = node.targets if not isinstance(node, ast.AugAssign) else [node.target]
+                    for t in ts:
+                        if isinstance(t, ast.Subscript) and isinstance(t.value, ast.Name) and t.value.id in glob and t.value.id not in local:
+                            # a settings cell (constant index) is configuration, not a registry
+                            if not (isinstance(t.slice, ast.Constant)):
+                                hit = t.value.id
+                        if isinstance(t, ast.Name) and t.id in gl and t.id in glob:
+                            hit = t.id
+                elif isinstance(node, ast.Call) and isinstance(node.func, ast.Attribute) and isinstance(node.func.value, ast.Name) \
+                        and node.func.value.id in glob and node.func.value.id not in local and node.func.attr in GLOBAL_MUTATORS:
+                    hit = node.func.value.id
+                if hit:
+                    ctx.ob('A-GLOBAL', None, False)
+                    ctx.fail('A-GLOBAL', '%s::%s' % (m.rel, f.name), 'module-level registry %s' % hit,
+                             '%s stores into the module-level container `%s`: archive objects then share process-wide state besides their store - e.g. one sqlite '
+                             'connection per database name makes every default in-memory archive (\':memory:\') one and the same table, so an entry written through one '
+                             'archive is found by a function cached in another' % (f.name, hit), '%s:%d' % (m.rel, node.lineno))
+    ctx.ob('A-GLOBAL', 'functions and methods of the archive modules write no module-level container', True, n=max(1, n))
+
+
 def rule_A_KEYERR_FOUND(ctx, repo, cache):
     """KeyError means "nothing stored": a path of __getitem__ / pop that found something in the store (the emptiness test of what was read
     came out non-empty, and nothing read came out empty or failed) must not end in KeyError - a stored None / 0 / '' is a value, not a miss."""
@@ -1219,14 +1344,18 @@ class FModel(PlainModel):
         if f[0] == 'attr' and f[2] == 'update' and contains_term(f[1], lambda t: t[0] == 'call' and t[1][0] == 'lib' and t[1][1].startswith('._archives.')):
             st.emit('AUPDATE', (f[1],) + tuple(args), line)
             return [R(st, NONE)]
+        if f[0] == 'attr' and contains_term(f[1], lambda t: t[0] == 'call' and t[1][0] == 'lib' and t[1][1].startswith('._archives.')):
+            # any other method called on the freshly built archive while it is being opened
+            st.emit('AMETHOD', (f[1], C(f[2])) + tuple(args), line)
+            return [R(st, ('call', f, tuple(args), tuple(kws)))]
         return PlainModel.call(self, f, args, kws, st, node)     # helper functions of archives.py are inlined
 
 
-def rule_A_FACTORY_OPEN(ctx, repo, cache, open_only=False, do_open=True):
+def rule_A_FACTORY_OPEN(ctx, repo, cache, open_only=False, do_open=True, factories=True):
     m = repo.mod('archives')
     am = repo.mod('_archives')
     names = ['dict_archive', 'null_archive', 'dir_archive', 'file_archive', 'sqltable_archive', 'sql_archive', 'hdfdir_archive', 'hdf_archive']
-    for nm in names:
+    for nm in (names if factories else []):
         ci = m.classes.get(nm)
         if ci is None:
             raise AnalysisError('anchor vanished: archives.%s' % nm)
@@ -1268,6 +1397,18 @@ def rule_A_FACTORY_OPEN(ctx, repo, cache, open_only=False, do_open=True):
                 ctx.ob('A-FACTORY', '%s cached=%s' % (nm, cached), ok)
                 if not ok:
                     ctx.fail('A-FACTORY', new.qual, 'factory: ' + why[:60], 'archives.%s.__new__ %s' % (nm, why), '%s:%d' % (m.rel, new.node.lineno), render_path(o))
+            # A-OPEN: the factory does nothing to the store but seed it: no dump / sync / load / clear on open (a cached handle that dumps on open
+            # rewrites a file archive with the snapshot it has just read - a concurrent writer's completed store is lost)
+            if do_open and nm not in ('dict_archive', 'null_archive'):
+                extra = [e for e in o.st.events if e.kind == 'AMETHOD' and e.args[1][1] in ('dump', 'sync', 'load', 'clear', 'drop', 'pop', 'popitem', '__setitem__',
+                                                                                           '__delitem__', 'setdefault', 'popkeys', 'open', 'archived')]
+                ctx.ob('A-OPEN', '%s factory cached=%s: no store operation besides the seed' % (nm, cached), not extra)
+                if extra:
+                    e = extra[0]
+                    ctx.fail('A-OPEN', new.qual, 'factory calls %s() on open' % e.args[1][1],
+                             'archives.%s.__new__ calls %s() on the archive it has just opened (cached=%s): opening a handle then reads the store and writes it back - '
+                             'for a file archive the whole file is replaced by that snapshot, so a store another process completed in between is lost'
+                             % (nm, e.args[1][1], cached), '%s:%d' % (m.rel, e.line), render_path(o))
             # A-OPEN: with cached=False and no seed, merely opening must not write
             if do_open and cached is False and dict_none is True:
                 ups = [e for e in o.st.events if e.kind == 'AUPDATE']
@@ -1333,8 +1474,9 @@ def rule_A_FACTORY_OPEN(ctx, repo, cache, open_only=False, do_open=True):
 
 
 def rule_A_ABS(ctx, repo, cache):
-    """directory archives identify their store by an absolute path on every construction path (so state/copy/pickle address the same
-    store whatever the working directory is); decided as a contradiction rule: if some path makes the id absolute, all must"""
+    """directory archives identify their store by an absolute path on every construction path (so the handle itself after a chdir, its state,
+    copies and pickles address the same store whatever the working directory is): pox.mkdir returns the absolute path of what it created,
+    the "already exists" path takes os.path.abspath"""
     for lab in ('dir_archive', 'hdfdir_archive[hdf]'):
         ci = archive_classes(repo, [lab])[0]
         fi, outs, eng = cache.outs(ci, '__init__')
@@ -1351,8 +1493,10 @@ def rule_A_ABS(ctx, repo, cache):
             is_abs = contains_term(val, lambda t: t[0] == 'call' and t[1][0] == 'lib' and t[1][1] in ('os.path.abspath', 'os.path.realpath')) \
                 or any(x.kind == 'MKDIR' and x.line == e.line for x in evs[:i])
             (good if is_abs else bad).append((o, e))
-        ctx.ob('A-ABS', lab, not (good and bad))
-        if good and bad:
+        if not good and not bad:
+            raise AnalysisError('anchor changed: %s.__init__ never records __state__[\'id\']' % lab)
+        ctx.ob('A-ABS', lab, not bad)
+        if bad:
             o, e = bad[0]
             ctx.fail('A-ABS', mq(ci, '__init__'), 'relative store id on some path',
                      '%s.__init__ records an absolute location on %d construction path(s) but the raw, possibly relative, argument on another (%s): a handle opened by relative '
